@@ -60,8 +60,10 @@ func (b *ProcessLogBuffer) getLogRange(offsetFromEnd, limit int) []string {
 	if limit > len(b.buffer) {
 		limit = len(b.buffer)
 	}
-	if offsetFromEnd+limit > len(b.buffer) {
-		limit = len(b.buffer) - offsetFromEnd
+	if limit > offsetFromEnd {
+		// the window starts offsetFromEnd lines before the end: it cannot
+		// hold more than that
+		limit = offsetFromEnd
 	}
 	if limit == 0 {
 		return b.buffer[len(b.buffer)-offsetFromEnd:]
